@@ -194,13 +194,19 @@ func classifyRecovered(r any, reqFormat string) string {
 
 // classifyCrash reads what a dead worker wrote to stderr (Go fatal error / unrecovered panic trace).
 func classifyCrash(stderr string, exitErr error, reqFormat string) string {
-	low := stderr
-	switch {
-	case strings.Contains(low, "out of memory") || strings.Contains(low, "cannot allocate") ||
-		strings.Contains(low, "errno=12") || strings.Contains(low, "failed to reserve") ||
-		strings.Contains(low, "cannot map pages") || strings.Contains(low, "failed to create new OS thread") ||
-		strings.Contains(low, "arena"):
-		return "resource:memory-fatal"
+	// the header of a Go crash report: everything before the first goroutine trace
+	head := stderr
+	if i := strings.Index(head, "\ngoroutine "); i >= 0 {
+		head = head[:i]
+	}
+	if i := strings.Index(head, "\nruntime stack:"); i >= 0 {
+		head = head[:i]
+	}
+	for _, m := range []string{"out of memory", "cannot allocate", "errno=12", "failed to reserve", "cannot map pages",
+		"failed to create new OS thread", "pthread_create failed", "arena", "Resource temporarily unavailable"} {
+		if strings.Contains(head, m) {
+			return "resource:memory-fatal"
+		}
 	}
 	var fns []string
 	for _, l := range strings.Split(stderr, "\n") {
@@ -213,11 +219,11 @@ func classifyCrash(stderr string, exitErr error, reqFormat string) string {
 		}
 	}
 	for _, k := range kindTable {
-		if strings.Contains(stderr, k.sub) {
+		if strings.Contains(head, k.sub) {
 			return "panic:" + keyFromFrames(fns, reqFormat, k.kind)
 		}
 	}
-	if strings.Contains(stderr, "panic: ") || strings.Contains(stderr, "fatal error: ") {
+	if strings.Contains(head, "panic: ") || strings.Contains(head, "fatal error: ") {
 		return "panic:" + keyFromFrames(fns, reqFormat, "fatal-error")
 	}
 	if exitErr != nil && strings.Contains(exitErr.Error(), "signal: killed") {
